@@ -104,7 +104,16 @@ def e2e_case(root, g, ops, kind, sig, crash_point, hit, delay_ms):
                 # takes time to wind down would be a grandchild, which ninja neither waits for nor can know about
                 sim.vtool = "exec " + sim.vtool
             text = graphs.real_manifest(sim.g, sim.vtool)
-            open(sim.path("build.ninja"), "w").write(text)
+            regen_first = kind == 'signal' and delay_ms % 3 == 0
+            if regen_first:
+                # the build starts by regenerating its manifest (0.12 s), so that early signals arrive during that phase
+                text += e2e.REGEN_RULE
+                open(sim.path("build.ninja"), "w").write(text)
+                time.sleep(e2e.GAP)
+                open(sim.path("build.ninja.in"), "w").write(text)
+                labels.add('manifest_regeneration_first')
+            else:
+                open(sim.path("build.ninja"), "w").write(text)
             try:
                 os.unlink(sim.trace_path)
             except FileNotFoundError:
@@ -112,6 +121,8 @@ def e2e_case(root, g, ops, kind, sig, crash_point, hit, delay_ms):
             env = dict(os.environ, VERIF_TRACE=sim.trace_path, TERM="dumb",
                        VERIF_SLEEP=",".join("%s:%d" % (key(e), 40 + 25 * (i % 3)) for i, e in enumerate(cmds)))
             env.pop("MAKEFLAGS", None)
+            if regen_first:
+                env["VERIF_REGEN_SLEEP"] = "0.12"
             if kind == 'point':
                 env["VERIF_CRASH_POINT"] = "%s:%d" % (crash_point, hit)
             onsig = []
@@ -157,6 +168,11 @@ def e2e_case(root, g, ops, kind, sig, crash_point, hit, delay_ms):
             running_at_stop = [s for s in started if s not in finished]
             if running_at_stop:
                 labels.add('stopped_with_commands_running')
+            if kind == 'signal' and 'signal_%d' % sig in labels and b"interrupted by user" in out and rc != 130:
+                return dict(kind='ninja says "interrupted by user" (signal %d) and exits with %d, not 130' % (sig, rc),
+                            detail=dict(detail, output=out[-300:].decode('utf-8', 'replace'))), labels
+            if regen_first and b"rebuilding 'build.ninja': interrupted" in out:
+                labels.add('interrupted_while_regenerating_the_manifest')
             if kind == 'signal' and 'signal_%d' % sig in labels and rc not in (0,):
                 labels.add('interrupted')
                 if rc != 130 and running_at_stop:
